@@ -1225,5 +1225,10 @@ def arrangement_failure(case, obs):
                     if 'text/html' in ctype and tok not in rec['body']:
                         return 'thread %d: error page of call %s does not mention its own request' % (ti, tok)
         if log != obs['solo'][ti]:
-            return 'thread %d: records differ from the same call served alone' % ti
+            alone = obs['solo'][ti]
+            k = next((i for i in range(min(len(log), len(alone))) if log[i] != alone[i]), min(len(log), len(alone)))
+            a, b = (log[k] if k < len(log) else {}), (alone[k] if k < len(alone) else {})
+            diff = {f: [a.get(f), b.get(f)] for f in sorted(set(a) | set(b)) if a.get(f) != b.get(f)}
+            return ('thread %d: record %d (%s of call %s) differs from the same call served alone: [here, alone] = %s'
+                    % (ti, k, a.get('kind') or b.get('kind'), a.get('tok') or b.get('tok'), json.dumps(diff)[:600]))
     return None
